@@ -308,10 +308,11 @@ func (rc *RunCtx) execFamily(u *ExecUniverse, prefixes ...string) {
 		extra = len(rejs) - maxConfirm
 		rejs = rejs[:maxConfirm]
 	}
-	if len(rejs) > 0 {
+	pending := rejs
+	for try := 0; try < confirmTries && len(pending) > 0; try++ {
 		sub := &ExecUniverse{Paths: u.Paths, Docs: u.Docs, Vars: u.Vars}
 		idx := map[int]int{}
-		for _, r := range rejs {
+		for _, r := range pending {
 			if _, ok := idx[r.id]; !ok {
 				sub.Cases = append(sub.Cases, u.Cases[r.id-1])
 				idx[r.id] = len(sub.Cases)
@@ -323,7 +324,8 @@ func (rc *RunCtx) execFamily(u *ExecUniverse, prefixes ...string) {
 			return
 		}
 		v2 := rc.judgeExec(sub, rows2)
-		for _, r := range rejs {
+		var still []rej
+		for _, r := range pending {
 			want := r.cl
 			if r.dev != "" {
 				want = "known." + r.dev + "." + r.cl
@@ -334,12 +336,12 @@ func (rc *RunCtx) execFamily(u *ExecUniverse, prefixes ...string) {
 					confirmed = true
 				}
 			}
-			ref, row := u.Cases[r.id-1], rows[r.id-1]
-			human := u.human(ref) + fmt.Sprintf(" lax=%v", ref.Lax)
 			if !confirmed {
-				rc.infra("record %d (%s) rejected with %s but a second execution was not rejected", r.id, human, r.cl)
+				still = append(still, r)
 				continue
 			}
+			ref, row := u.Cases[r.id-1], rows[r.id-1]
+			human := u.human(ref) + fmt.Sprintf(" lax=%v", ref.Lax)
 			b, _ := json.Marshal(map[string]any{"verbose": showRun(row.V), "silent": showRun(row.S)})
 			sig := r.cl + " | " + human
 			if r.dev != "" {
@@ -352,6 +354,11 @@ func (rc *RunCtx) execFamily(u *ExecUniverse, prefixes ...string) {
 				Replay: map[string]any{"case": u.caseOf(ref), "obs": row},
 			})
 		}
+		pending = still
+	}
+	for _, r := range pending {
+		ref := u.Cases[r.id-1]
+		rc.unreproduced("record %d (%s lax=%v) rejected with %s", r.id, u.human(ref), ref.Lax, r.cl)
 	}
 	if extra > 0 {
 		rc.Notes = append(rc.Notes, fmt.Sprintf("%d further rejections were not re-executed (cap %d)", extra, maxConfirm))
